@@ -111,12 +111,12 @@ func padFor(seq int64, size int) []byte {
 
 // RecvRec is one message seen by a sink behaviour.
 type RecvRec struct {
-	From    string
-	Seq     int64
-	OK      bool // checksum / pad content intact
-	Sender  string
-	At      time.Duration
-	Via     string // RMsg or UMsg
+	From   string
+	Seq    int64
+	OK     bool // checksum / pad content intact
+	Sender string
+	At     time.Duration
+	Via    string // RMsg or UMsg
 }
 
 type RNode struct {
